@@ -43,7 +43,8 @@ type world struct {
 	rtrCli []traits.OnOffApiClient // the router itself behind wrap.ServerToClient
 
 	wrapModel []*onoffpb.Model
-	wrapCli   []traits.OnOffApiClient // hdrServer behind wrap.ServerToClient
+	wrapCli   []traits.OnOffApiClient    // hdrServer behind wrap.ServerToClient
+	chat      []grpc.ClientConnInterface // the hand-written bidi service behind wrap.ServerToClient (mdops.go)
 
 	el   []*electricpb.Model
 	par  []*parentpb.Model
@@ -126,6 +127,7 @@ func newWorld(need map[string]bool, inst int) *world {
 			}
 			w.wrapModel = append(w.wrapModel, m)
 			w.wrapCli = append(w.wrapCli, onoffpb.WrapApi(&hdrServer{m: m}))
+			w.chat = append(w.chat, newChatConn())
 		}
 		if need["el"] {
 			m1 := &traits.ElectricMode{Id: "m1", Title: "one", Normal: true, Segments: []*traits.ElectricMode_Segment{{Magnitude: 1}}}
@@ -273,6 +275,10 @@ type hdrServer struct {
 
 func (s *hdrServer) GetOnOff(ctx context.Context, req *traits.GetOnOffRequest) (*traits.OnOff, error) {
 	touch(req)
+	if req.Name == "busy" {
+		s.busyUnary(ctx)
+		return s.m.GetOnOff()
+	}
 	_ = grpc.SetHeader(ctx, metadata.Pairs("h", "get"))
 	_ = grpc.SetTrailer(ctx, metadata.Pairs("t", "get"))
 	return s.m.GetOnOff(resource.WithReadMask(req.ReadMask))
@@ -289,6 +295,16 @@ func (s *hdrServer) UpdateOnOff(ctx context.Context, req *traits.UpdateOnOffRequ
 
 func (s *hdrServer) PullOnOff(req *traits.PullOnOffRequest, srv traits.OnOffApi_PullOnOffServer) error {
 	touch(req)
+	if req.Name == "busy" {
+		_ = srv.SetHeader(metadata.Pairs("h", "first"))
+		srv.SetTrailer(metadata.Pairs("h", "first"))
+		cur, _ := s.m.GetOnOff()
+		if err := srv.Send(&traits.PullOnOffResponse{Changes: []*traits.PullOnOffResponse_Change{{Name: req.Name, OnOff: cur}}}); err != nil { // flushes the headers
+			return err
+		}
+		keepSettingMetadata(srv.SetHeader, srv.SetTrailer)
+		return nil
+	}
 	_ = srv.SetHeader(metadata.Pairs("h", "pull"))
 	if req.Name != "lazy" {
 		_ = srv.SendHeader(metadata.Pairs("h2", "pull"))
